@@ -36,6 +36,11 @@ def changeBase (S : Storage) (l r : S.T) (v : S.V) : S.V :=
   else
     S.value (S.div v (S.div l r))
 
+/-- `q.floor::<N>()`, `ceil`, `round`, `trunc`, `fract` (src/quantity.rs):
+    `Self::new::<N>(self.get::<N>().op())` -/
+def roundInUnit (S : Storage) (op : S.V → S.V) (coef consA consS f : S.T) (v : S.V) : S.V :=
+  toBase S coef consA f (op (fromBase S coef consS f v))
+
 /-- exact integer power of a rational (`Ratio::pow`, and the `recip`+`pow` of the big types) -/
 def ratPowi (c : Rat) (e : Int) : Rat := c ^ e
 
